@@ -1,8 +1,8 @@
 #!/bin/bash
-# confirm_mutant.sh <Cxx> <k> : independently re-confirms a sub-agent's seeded change in its scratch worktree:
+# confirm_mutant.sh <Cxx> <k> [store-index] : independently re-confirms a sub-agent's seeded change in its scratch worktree:
 # compiles, pinned suite passes with it, its demonstration fails with it and passes without it.
 # On success stores it as /verif/seeded/<Cxx>-<k>/ (patch.diff, demo.rs, README.md, meta.json).
-id="$1"; k="$2"; wt="/tmp/mut/$id"; src="$wt/_out/mutant$k"
+id="$1"; k="$2"; store="${3:-$2}"; wt="/tmp/mut/$id"; src="$wt/_out/mutant$k"
 [ -f "$src/patch.diff" ] || { echo "no patch"; exit 2; }
 cd "$wt" || exit 2
 git checkout -q -- . ; rm -f tests/demo_verif_*.rs
@@ -18,9 +18,9 @@ echo "== with patch: pinned suite must pass"
 git checkout -q -- . 
 echo "demo_without=$r0 demo_with=$r1 baseline_with=$rb"
 if [ $r0 -eq 0 ] && [ $r1 -ne 0 ] && [ $rb -eq 0 ]; then
-  d=/verif/seeded/$id-$k; mkdir -p $d
+  d=/verif/seeded/$id-$store; mkdir -p $d
   cp "$src/patch.diff" "$src/demo.rs" $d/; cp "$src/README.md" $d/README.md 2>/dev/null
-  python3 - "$id" "$k" "$d" <<'PY'
+  python3 - "$id" "$store" "$d" <<'PY'
 import json,sys,subprocess
 id,k,d=sys.argv[1:4]
 head=subprocess.run(['git','-C','/tmp/mut/'+id,'rev-parse','HEAD'],capture_output=True,text=True).stdout.strip()
